@@ -77,6 +77,7 @@ var registry = map[string]map[string]string{
 // and a second private_key_jwt client "jwtb".
 func newConfig() *refstore.Config {
 	cfg := rig.DefaultConfig()
+	cfg.ATLifetime, cfg.RTLifetime = 6*time.Hour, 12*time.Hour
 	a := cfg.Clients[A]
 	a.Redirects = []string{cbA1, cbA2}
 	for kid, name := range registry[A] {
